@@ -667,8 +667,8 @@ def gen_points(rng, n, batch=0):
 
     while len(pts) < n + batch:
         std = len(pts) < n
-        kw = dict(receiver_names=0.08, type_first=0.3, gn_defaults=0.3, malformed=0.04) if std else \
-            dict(receiver_names=0.03, type_first=0.3, gn_defaults=0.5, malformed=0.4, dmodes=GN_HEAVY)
+        kw = dict(receiver_names=0.08, type_first=0.3, gn_defaults=0.3, malformed=0.04, near_receiver=0.08) if std else \
+            dict(receiver_names=0.03, type_first=0.3, gn_defaults=0.5, malformed=0.4, dmodes=GN_HEAVY, near_receiver=0.04)
         extra = [] if std else ["batch"]
         r = rng.random()
         if r < 0.68:
@@ -873,7 +873,8 @@ def oracle(rng, tier):
                 "freshly forked worker; ReST :type fields before or after their :param/:cvar entry; documented defaults in "
                 "every style; "
                 "generated definitions (positional, keyword-only, **kwargs; self/cls methods; later parameters that are merely "
-                "called self/cls; classes with __init__; "
+                "called self/cls; first (and later) positional parameters of plain functions and methods named like the receiver "
+                "of another convention - mcs, klass, this, me, metacls, selfish, ...; classes with __init__; "
                 "annotations; defaults of literal/container/code/opaque kinds; ReST/Google/numpydoc docstrings documenting "
                 "all/some/none of the parameters in or out of order); non-trivial = distinct definition inside the guard "
                 "with >= 2 strata tags on which the property holds",
